@@ -41,6 +41,10 @@ pub struct Caller {
     /// after readiness, create the call future and drop it without ever polling it
     #[serde(default)]
     pub drop_unpolled: bool,
+    /// goes through a second service built from the same layer (shared algorithm and limit,
+    /// separate inner service and in-flight count)
+    #[serde(default)]
+    pub sibling: bool,
 }
 
 #[derive(Clone, Debug, Serialize, Deserialize)]
@@ -112,13 +116,15 @@ fn case_strategy(tier: Tier) -> BoxedStrategy<AdaptiveCase> {
             2 => (1u64..=90).prop_map(Some),
         ],
         prop::bool::weighted(0.12),
+        any::<bool>(),
     )
-        .prop_map(|(at, clone, step, cancel_after, drop_unpolled)| Caller {
+        .prop_map(|(at, clone, step, cancel_after, drop_unpolled, sibling)| Caller {
             at,
             clone,
             step,
             cancel_after,
             drop_unpolled,
+            sibling,
         });
     let sim_case = (
         any::<bool>(),
@@ -127,14 +133,22 @@ fn case_strategy(tier: Tier) -> BoxedStrategy<AdaptiveCase> {
         1usize..=4,
         prop::collection::vec(caller, 2..=callers_hi),
         prop::collection::vec(any::<u8>(), 0..=40),
+        any::<bool>(),
     )
-        .prop_map(|(vegas, min, extra, initial, callers, order)| AdaptiveCase::Sim {
-            vegas,
-            min,
-            max: min + extra,
-            initial,
-            callers,
-            order,
+        .prop_map(|(vegas, min, extra, initial, mut callers, order, two_services)| {
+            if !two_services {
+                for c in callers.iter_mut() {
+                    c.sibling = false;
+                }
+            }
+            AdaptiveCase::Sim {
+                vegas,
+                min,
+                max: min + extra,
+                initial,
+                callers,
+                order,
+            }
         });
     prop_oneof![3 => sched_case, 2 => sim_case].boxed()
 }
@@ -338,10 +352,14 @@ async fn run_sim_generic<A: ConcurrencyAlgorithm + 'static>(
     for (i, c) in callers.iter().enumerate() {
         table.insert(i as u32, vec![c.step]);
     }
-    let inner = Scripted::from_table(log.clone(), table, Step::ok(0));
+    let inner = Scripted::from_table(log.clone(), table.clone(), Step::ok(0));
+    let inner2 = Scripted::from_table(log.clone(), table, Step::ok(0));
     let layer = AdaptiveLimiterLayer::new(algorithm);
     let base = tower::Layer::layer(&layer, inner.clone());
+    let base2 = tower::Layer::layer(&layer, inner2.clone());
     let clones: Vec<_> = (0..3).map(|_| base.clone()).collect();
+    let clones2: Vec<_> = (0..3).map(|_| base2.clone()).collect();
+    let mut saw_sibling = false;
     let n = callers.len();
     let horizon = callers
         .iter()
@@ -356,6 +374,7 @@ async fn run_sim_generic<A: ConcurrencyAlgorithm + 'static>(
     let mut saw_panic = false;
     let mut saw_unpolled_drop = false;
     let probe = base.clone();
+    let probe2 = base2.clone();
 
     for t in 0..=horizon {
         if t > 0 {
@@ -363,8 +382,12 @@ async fn run_sim_generic<A: ConcurrencyAlgorithm + 'static>(
         }
         for (i, c) in callers.iter().enumerate() {
             if c.at == t {
-                let mut svc = clones[(c.clone % 3) as usize].clone();
-                let truth = inner.shared.clone();
+                let (mut svc, truth) = if c.sibling {
+                    saw_sibling = true;
+                    (clones2[(c.clone % 3) as usize].clone(), inner2.shared.clone())
+                } else {
+                    (clones[(c.clone % 3) as usize].clone(), inner.shared.clone())
+                };
                 let viol = violations.clone();
                 let pf = pending_flag.clone();
                 let req = Req {
@@ -437,12 +460,14 @@ async fn run_sim_generic<A: ConcurrencyAlgorithm + 'static>(
             }
         }
         sim.settle().await;
-        let truth = inner.shared.in_flight() as usize;
-        let reported = probe.in_flight();
-        if reported != truth {
-            violations.lock().unwrap().push(format!(
-                "t={t}: in_flight() reports {reported} at quiescence but {truth} inner calls are in flight"
-            ));
+        for (which, pr, sh) in [(1, &probe, &inner.shared), (2, &probe2, &inner2.shared)] {
+            let truth = sh.in_flight() as usize;
+            let reported = pr.in_flight();
+            if reported != truth {
+                violations.lock().unwrap().push(format!(
+                    "t={t}: in_flight() of service {which} reports {reported} at quiescence but {truth} inner calls are in flight"
+                ));
+            }
         }
         let lim = probe.limit();
         let (lo, hi) = (probe.algorithm().min_limit(), probe.algorithm().max_limit());
@@ -465,24 +490,26 @@ async fn run_sim_generic<A: ConcurrencyAlgorithm + 'static>(
             sim.cancel(tk);
         }
         sim.advance(2).await;
-        let truth = inner.shared.in_flight();
-        let reported = probe.in_flight();
+        let truth = inner.shared.in_flight() + inner2.shared.in_flight();
+        let reported = probe.in_flight() + probe2.in_flight();
         if truth != 0 || reported != 0 {
             violations.lock().unwrap().push(format!(
                 "after the history nothing is running (ground truth {truth}) but in_flight() reports {reported}"
             ));
         }
-        let mut p2 = probe.clone();
-        let lim = p2.limit();
-        let ready = p2
-            .poll_ready(&mut std::task::Context::from_waker(
-                futures::task::noop_waker_ref(),
-            ))
-            .is_ready();
-        if lim >= 1 && !ready {
-            violations.lock().unwrap().push(format!(
-                "after the history nothing is running and the limit is {lim}, yet readiness is refused"
-            ));
+        for pr in [&probe, &probe2] {
+            let mut p2 = pr.clone();
+            let lim = p2.limit();
+            let ready = p2
+                .poll_ready(&mut std::task::Context::from_waker(
+                    futures::task::noop_waker_ref(),
+                ))
+                .is_ready();
+            if lim >= 1 && !ready {
+                violations.lock().unwrap().push(format!(
+                    "after the history nothing is running and the limit is {lim}, yet readiness is refused"
+                ));
+            }
         }
     }
     let snap = log.snapshot();
@@ -505,6 +532,9 @@ async fn run_sim_generic<A: ConcurrencyAlgorithm + 'static>(
     }
     if saw_unpolled_drop {
         classes.push("call_future_dropped_unpolled");
+    }
+    if saw_sibling {
+        classes.push("two_services_of_one_layer");
     }
     SimVerdict {
         violations: v,
